@@ -389,7 +389,8 @@ pub fn run(real: &Program, prog: &Prog, cap: u64) -> LockResult {
         }
     }
     // final sweep
-    if res.divergence.is_none() && matches!(m.status, Status::Halted | Status::Failed(_)) {
+    // (after a failure the state is no longer observable: FML may leave a half-done update)
+    if res.divergence.is_none() && matches!(m.status, Status::Halted) {
         let mut bad = compare_globals(&mut bij, &state, &m);
         if bad.is_none() {
             for i in 0..m.heap.len() {
